@@ -14,6 +14,7 @@ import (
 	"mime"
 	"strconv"
 	"strings"
+	"sync/atomic"
 	"time"
 	"unicode/utf8"
 
@@ -455,6 +456,11 @@ func (s *Session) writeCompressed(rw io.ReadWriter, p *Proposal) (err error) {
 
 	buffer := bytes.NewBuffer(p.compressedData[p.offset:])
 
+	// Number of bytes not yet written. The status goroutine must not touch the buffer itself,
+	// as it is drained concurrently by this goroutine.
+	var remaining atomic.Int64
+	remaining.Store(int64(buffer.Len()))
+
 	// Update Status of message transfer every 250ms
 	statusTicker := time.NewTicker(250 * time.Millisecond)
 	statusDone := make(chan struct{})
@@ -472,7 +478,7 @@ func (s *Session) writeCompressed(rw io.ReadWriter, p *Proposal) (err error) {
 					txBufLen = b.TxBufferLen()
 				}
 
-				transferred := p.compressedSize - buffer.Len() - txBufLen
+				transferred := p.compressedSize - int(remaining.Load()) - txBufLen
 				if transferred < 0 {
 					transferred = 0
 				}
@@ -488,7 +494,7 @@ func (s *Session) writeCompressed(rw io.ReadWriter, p *Proposal) (err error) {
 				if s.statusUpdater != nil {
 					s.statusUpdater.UpdateStatus(Status{
 						Sending:          p,
-						BytesTransferred: p.compressedSize - buffer.Len(),
+						BytesTransferred: p.compressedSize - int(remaining.Load()),
 						BytesTotal:       p.compressedSize,
 						Done:             true,
 					})
@@ -512,6 +518,7 @@ func (s *Session) writeCompressed(rw io.ReadWriter, p *Proposal) (err error) {
 
 		for i := 0; i < msgLen; i++ {
 			c, _ := buffer.ReadByte()
+			remaining.Add(-1)
 			if err := writer.WriteByte(c); err != nil {
 				return err
 			}
@@ -619,6 +626,10 @@ func (s *Session) readCompressed(rw io.ReadWriter, p *Proposal) (err error) {
 		s.log.Println("GZIP_EXPERIMENT:", "Receiving gzip compressed message.")
 	}
 
+	// Number of bytes received. The status goroutine must not touch buf itself, as it is
+	// filled concurrently by this goroutine.
+	var received atomic.Int64
+
 	statusUpdate := make(chan struct{})
 	go func() {
 		for {
@@ -626,7 +637,7 @@ func (s *Session) readCompressed(rw io.ReadWriter, p *Proposal) (err error) {
 			if s.statusUpdater != nil {
 				s.statusUpdater.UpdateStatus(Status{
 					Receiving:        p,
-					BytesTransferred: buf.Len(),
+					BytesTransferred: int(received.Load()),
 					BytesTotal:       p.compressedSize,
 					Done:             !ok,
 				})
@@ -664,6 +675,7 @@ func (s *Session) readCompressed(rw io.ReadWriter, p *Proposal) (err error) {
 					return
 				}
 				buf.WriteByte(c)
+				received.Add(1)
 				ourChecksum = (ourChecksum + int(c)) % 256
 				if i%10 == 0 {
 					updateStatus()
